@@ -217,6 +217,25 @@ pub fn run_c01(cfg: &Cfg) {
         let rf = sc.run::<f64>();
         rep.evaluations += 1;
         check_float_run(&mut rep, "f64", &sc, &expected, &rf, &eps64(), 8, false);
+        // Interp1D::new_unchecked on the same (valid) inputs is the same interpolator
+        if ci % 4 == 0 {
+            let data = make_data::<f64>(&sc.rows, &sc.trail);
+            let x = ndarray::Array1::from(sc.axis_vals());
+            let r = std::panic::catch_unwind(std::panic::AssertUnwindSafe(|| {
+                let unchecked = ndarray_interp::interp1d::Interp1D::new_unchecked(x.clone(), data.clone(), ndarray_interp::interp1d::Linear::new());
+                let built = ndarray_interp::interp1d::Interp1DBuilder::new(data.clone()).x(x.clone()).strategy(ndarray_interp::interp1d::Linear::new()).build().unwrap();
+                sc.queries.iter().all(|&q| {
+                    let a = unchecked.interp(q).map(|v| v.iter().map(|t| t.to_bits()).collect::<Vec<u64>>()).map_err(|_| ());
+                    let b = built.interp(q).map(|v| v.iter().map(|t| t.to_bits()).collect::<Vec<u64>>()).map_err(|_| ());
+                    a == b && unchecked.is_in_range(q) == built.is_in_range(q)
+                })
+            }));
+            rep.evaluations += 1;
+            rep.count("new_unchecked");
+            if r.ok() != Some(true) {
+                rep.fail("Interp1D::new_unchecked(x, data, Linear) on valid inputs does not behave like the built interpolator", sc.to_json());
+            }
+        }
         if f32safe {
             let rf32 = sc.run::<f32>();
             rep.evaluations += 1;
